@@ -186,6 +186,17 @@ def clientOp (st : St) (op a r h t : String) : St × String :=
           else (set st1 (p ++ C.clientState) .cs2, "ok")
     | _, _, _, _ => (st, "bad-op")
 
+/-- the hits of the ConsensusStates query, or "err" when a bare consensus-state key holds something else -/
+def consQueryGo : List (Bytes × SV) → List String → String
+  | [], acc => okList acc.reverse
+  | kv :: r, acc =>
+    match consQueryKey (kv.1.drop (C.consensusStatePrefix.length + 1)) with
+    | none => consQueryGo r acc
+    | some (rv, h) =>
+      match kv.2 with
+      | .ss => consQueryGo r ((toString rv.toNat ++ "-" ++ toString h.toNat) :: acc)
+      | _ => "err"                               -- UnmarshalConsensusState fails
+
 def step1 (st : St) (line : String) : St × String :=
   match fields line with
   | ["reset"] => (fresh, "ok")
@@ -231,6 +242,22 @@ def step1 (st : St) (line : String) : St × String :=
     | _, _, _, _, _, _ => (st, "bad-op")
   | ["ctoggle", a, r, h, t] => clientOp st "ctoggle" a r h t
   | ["cupgrade", a, r, h, t] => clientOp st "cupgrade" a r h t
+  | "gcons" :: a :: _ =>
+    -- gRPC ConsensusStates (all pages): ClientIdentifierValidator, then every bare consensus-state key of the client
+    match unhex a with
+    | none => (st, "bad-op")
+    | some a =>
+      if !validName Validate.clientIdentifierValidator a then (st, "err") else
+      let items := clientIter st a (C.consensusStatePrefix ++ [slash])
+      (st, consQueryGo items [])
+  | ["gclients"] =>
+    -- gRPC ClientStates: IterateClients, then sorted by chain name
+    let names := (prefixIter C.clientStorePrefix st.store).filterMap (fun kv =>
+      match parseClientKey C kv.1 with
+      | none => none
+      | some a => some (a, kv.2))
+    if names.any (fun x => match x.2 with | .cs => false | .cs2 => false | _ => true) then (st, "panic")
+    else (st, okList ((names.map (·.1)).mergeSort (fun x y => !bytesLt y x) |>.map hex))
   | ["heightstr", r, h] =>
     match u64? r, u64? h with
     | some r, some h => (st, match render Parsers.heightString [.h r h] with | some s => hex s | none => "bad-op")
@@ -536,6 +563,7 @@ def step1 (st : St) (line : String) : St × String :=
 def step (st : St) (line : String) : St × String :=
   match fields line with
   | "discard" :: rest => (st, (step1 st (joinWith " " rest)).2)
+  | ["grpcp", fam, a, b, _] => step1 st (joinWith " " ["grpc", fam, a, b])     -- paging through all pages = the unpaged answer
   | _ => step1 st line
 
 def main : IO Unit := TM.Driver.runStdin step fresh
